@@ -1230,6 +1230,47 @@ pub fn directed() -> Vec<Request> {
             out.push(Request { mode: Mode::Attr, attr: "Add, AddAssign".into(), item: format!("impl Add for X {{ {inner} type Output = X; fn add(self, rhs: X) -> X {{ self }} }}") });
         }
     }
+    // wide AND heterogeneous: 21 .. 64 fields drawn (fixed pseudo-random arrangements) from several
+    // types that mention differently ordered parameters - what sorting, de-duplicating or grouping
+    // of bounds sees only with many distinct keys in an irregular order
+    {
+        let mut x: u64 = 0x9e37_79b9_7f4a_7c15;
+        let mut next = |m: usize| -> usize {
+            x = x.wrapping_mul(6364136223846793005).wrapping_add(1442695040888963407);
+            ((x >> 33) as usize) % m
+        };
+        for decl in ["T, E", "U, T", "B, A, C", "Z, Y, X, W", "T"] {
+            let ps: Vec<&str> = decl.split(", ").collect();
+            for n in [21usize, 24, 33, 48, 64] {
+                for _arrangement in 0..6 {
+                    let mut fields = Vec::new();
+                    for _ in 0..n {
+                        let p = ps[next(ps.len())];
+                        let q = ps[next(ps.len())];
+                        fields.push(match next(9) {
+                            0 | 1 => p.to_string(),
+                            2 => format!("Option<{p}>"),
+                            3 => format!("Vec<{q}>"),
+                            4 => format!("{p}::Item"),
+                            5 => format!("({p}, {q})"),
+                            6 => format!("[{q}; 2]"),
+                            7 => "u8".to_string(),
+                            _ => format!("Box<{p}>"),
+                        });
+                    }
+                    let tuple = format!("struct X<{decl}>({});", fields.join(", "));
+                    let named = format!("struct X<{decl}> {{ {} }}", fields.iter().enumerate().map(|(i, t)| format!("f{i}: {t}")).collect::<Vec<_>>().join(", "));
+                    let en = format!("enum X<{decl}> {{ #[default] D, {} }}", fields.chunks(3).enumerate().map(|(i, c)| format!("V{i}({})", c.join(", "))).collect::<Vec<_>>().join(", "));
+                    for (item, list) in [(tuple, "Clone, PartialEq, Add"), (named, "Clone, Debug, Default, Ord, PartialOrd, Eq, PartialEq, Hash"), (en, "Clone, Debug, PartialOrd, PartialEq, Hash")] {
+                        out.push(Request { mode: Mode::Attr, attr: list.into(), item: item.clone() });
+                        if next(3) == 0 {
+                            out.push(Request { mode: Mode::Derive, attr: String::new(), item: format!("#[derive_ex(Clone, Hash)] {item}") });
+                        }
+                    }
+                }
+            }
+        }
+    }
     // normalise to the printed token form and drop what is not a valid request
     let mut res = Vec::new();
     let mut seen = std::collections::BTreeSet::new();
